@@ -250,6 +250,12 @@ class Linear2StageBattery(Battery):
                 f"may not be accurate for pilot {pilot} A."
             )
 
+        if self._soc >= 1 or pilot_dsoc == 0:
+            # A full battery, or a pilot too small to move the state of
+            # charge, draws nothing (the formulas below would divide 0 by 0).
+            self._current_charging_power = 0
+            return 0
+
         # The charging equation depends on whether the current SoC of
         # the battery is above or below the new transition SoC.
         if self._soc < pilot_transition_soc:
@@ -257,7 +263,11 @@ class Linear2StageBattery(Battery):
             # depending on whether charging the battery over this
             # time period causes the battery to transition between
             # charging regions.
-            if 1 <= (pilot_transition_soc - self._soc) / pilot_dsoc:
+            if pilot_transition_soc >= 1:
+                # The pilot is so small that rounding leaves no ramp-down
+                # region before full charge.
+                curr_soc = min(pilot_dsoc + self._soc, 1)
+            elif 1 <= (pilot_transition_soc - self._soc) / pilot_dsoc:
                 curr_soc = pilot_dsoc + self._soc
             else:
                 curr_soc = 1 + np.exp(
